@@ -66,7 +66,7 @@ class Build:
                             "--exclude", "/build", "--exclude", "/doc", ALDOR_TOP + "/", self.top + "/"])
         if rc == 0:
             rc, out, err = run(["rsync", "-a", "--exclude", "*.i", "--exclude", "*.s", COMP + "/", self.comp + "/"])
-        if rc != 0:
+        if rc not in (0, 24):          # 24 = some files vanished while copying (a build running in /repo)
             raise RuntimeError("rsync failed: " + err)
         self.src = os.path.join(self.comp, "src")
         self.hooks = hooks
